@@ -17,16 +17,20 @@
   (every level of a dotted name is copied before it is written) and `$unwind`
   (`includeArrayIndex`), the table keeps the old behaviour expressible so that a regression shows
   as a different table):
-    * `aggregate` works on `find()` copies (deep, new objects) and on a REBUILT pipeline: every
+    * `aggregate` works on one deep copy per stored document (`_get_dataset`; new objects), under
+      `tz_aware` it hands out a REBUILD of the results (every dict and list new: `resultCopy`),
+      and on a REBUILT pipeline: every
       dict and list of the caller's pipeline object is built anew before the stages see it
       (`pipelineCopy`; the stages used to read — and, under the former disciplines, write — the
       caller's own object: `.none`);
     * `$match/$sort/$skip/$limit/$sample` hand on the same document objects in a new list;
     * `$sample` reads `size` from the caller's option dict (it used to POP it: `samplePops`);
-    * `$addFields/$set`: `dict(doc)` (shallow), and along a dotted name EVERY level is a
-      `copy.copy` of the sub-document found there (a new dict around the same values) which is
-      written into the copy above it: no object that existed before the stage is written (it used
-      to descend into the SHARED sub-document and write there: `addFieldsNested` = `.none`);
+    * `$addFields/$set`: `dict(doc)` (shallow), and along a dotted name (`_add_field`) EVERY
+      document found is replaced by a `copy.copy` of it (a new dict around the same values) and
+      EVERY array by a new list of its rebuilt items, each item receiving its own deep copy of the
+      value (`addFieldsItemValue`); on a path that crosses no array the computed value itself is
+      placed: no object that existed before the stage is written (it used to descend into the
+      SHARED sub-document and write there: `addFieldsNested` = `.none`);
     * `$lookup` (1154-1164) writes `doc[as]` into the input document itself, the joined documents
       are `find()` copies;
     * `$unwind` deep-copies the document once per element and keeps the COPY's own element — or
@@ -245,6 +249,13 @@ structure Disc where
   /-- `$addFields` on a dotted name: how the sub-document found at each level is taken before it
       is written (`copy.copy` → shallow; `.none` = the shared object itself is written into) -/
   addFieldsNested : Copy
+  /-- `$addFields` on a dotted name through an array: how the value reaches each item
+      (`copy.deepcopy(new_value)` → deep; `.none` = all items share the one computed value) -/
+  addFieldsItemValue : Copy
+  /-- `aggregate` of a `tz_aware` collection: how the returned documents are handed out
+      (`make_datetime_timezone_aware_in_document(list(results))` rebuilds every dict and list →
+      deep) -/
+  resultCopy : Copy
   /-- `$unwind`: the per-element copy of the document (`copy.deepcopy` → deep) -/
   unwindDoc : Copy
   /-- `$unwind`: the array element (or the value that is no array) an output document holds
@@ -269,7 +280,7 @@ structure Disc where
 /-- the discipline of /repo as read (see the header); `Generated.AggDiscipline` is compared with it -/
 def Disc.reference : Disc :=
   { source := .deep, pipelineCopy := .deep, lookupForeign := .deep, lookupWritesInput := true, addFieldsTop := .shallow,
-    addFieldsNested := .shallow, unwindDoc := .deep, unwindItem := .deep, unwindIndexed := .deep,
+    addFieldsNested := .shallow, addFieldsItemValue := .deep, resultCopy := .deep, unwindDoc := .deep, unwindItem := .deep, unwindIndexed := .deep,
     samplePops := false,
     facetSharesInput := false, literal := .deep, arrayConst := .evaluated, outStores := .deep }
 
@@ -487,15 +498,51 @@ def setPathCopy (c : Copy) (v : HV) : List String → HV → Nat → HV × Nat
        (setPathCopy c v (k2 :: r) (c.run (.node i true ks) n).1 (c.run (.node i true ks) n).2).2)
     | _ => (x.setLocal k (nestNew (k2 :: r) v n).1, (nestNew (k2 :: r) v n).2)
 
+mutual
+  /-- `_add_field(value, parts, new)`: the value with `new` at the dotted path below it.  Nothing
+      that is there is written: a document on the path is replaced by a new dict around the same
+      fields, an array by a new list of its rebuilt items — each item with its own copy (`ci`) of
+      `new` —, anything else by new documents. -/
+  def addFieldV (ci : Copy) (new : HV) : HV → List String → Nat → HV × Nat
+    | _, [], n => (new, n)
+    | .node _ false items, p :: ps, n =>
+      (.node (.tmp n) false (addFieldItems ci new items (p :: ps) (n + 1)).1,
+       (addFieldItems ci new items (p :: ps) (n + 1)).2)
+    | .node _ true kids, p :: ps, n =>
+      (.node (.tmp n) true (addFieldKey ci new p ps kids (n + 1)).1,
+       (addFieldKey ci new p ps kids (n + 1)).2)
+    | .atom _, p :: ps, n => nestNew (p :: ps) new n
+  /-- every item of an array, each with its own copy of the value -/
+  def addFieldItems (ci : Copy) (new : HV) : Kids → List String → Nat → Kids × Nat
+    | [], _, n => ([], n)
+    | (k, it) :: r, ps, n =>
+      ((k, (addFieldV ci (ci.run new n).1 it ps (ci.run new n).2).1) ::
+         (addFieldItems ci new r ps (addFieldV ci (ci.run new n).1 it ps (ci.run new n).2).2).1,
+       (addFieldItems ci new r ps (addFieldV ci (ci.run new n).1 it ps (ci.run new n).2).2).2)
+  /-- `value[p] = _add_field(value.get(p), ps, new)` on the fields of the copied document: an
+      existing key keeps its position, a new key is appended -/
+  def addFieldKey (ci : Copy) (new : HV) (p : String) (ps : List String) : Kids → Nat → Kids × Nat
+    | [], n => ([(p, (nestNew ps new n).1)], (nestNew ps new n).2)
+    | (k, v) :: r, n =>
+      if k = p then ((k, (addFieldV ci new v ps n).1) :: r, (addFieldV ci new v ps n).2)
+      else ((k, v) :: (addFieldKey ci new p ps r n).1, (addFieldKey ci new p ps r n).2)
+end
+
+/-- `out_doc[p] = _add_field(out_doc.get(p), ps, v)` on a document one holds directly -/
+def addFieldTop (ci : Copy) (v : HV) (path : List String) (top : HV) (n : Nat) : HV × Nat :=
+  match path, top with
+  | p :: ps, .node id true kids => (.node id true (addFieldKey ci v p ps kids n).1, (addFieldKey ci v p ps kids n).2)
+  | _, _ => (top, n)
+
 /-- set `path := v` on the `j`-th document under construction: the document is a new object of
     the stage, and so is every level below it that the name goes through -/
 def setOut (D : Disc) (w : World) (j : Nat) (path : List String) (v : HV) : R World :=
   match D.addFieldsNested with
   | .none => setOutShared w j path v
-  | c =>
+  | _ =>
     match w.out[j]? with
-    | some top => .ok { w with out := w.out.set j (setPathCopy c v path top w.nextTmp).1,
-                               nextTmp := (setPathCopy c v path top w.nextTmp).2 }
+    | some top => .ok { w with out := w.out.set j (addFieldTop D.addFieldsItemValue v path top w.nextTmp).1,
+                               nextTmp := (addFieldTop D.addFieldsItemValue v path top w.nextTmp).2 }
     | none => .ok w
 
 /-- one field of `$addFields` over all documents (inner loop of 1557-1569) -/
@@ -994,6 +1041,16 @@ def World.state (w : World) : State := ⟨w.colls, w.idx, w.pipe, w.nextSt⟩
 /-- run explicit stages on a collection -/
 def aggregateStages (D : Disc) (sem : Sem) (s : State) (coll : String) (stages : List Stage) : R World :=
   runStages D sem (s.world D coll) stages
+
+/-- what the caller is handed: the working documents, or under `tz_aware` their rebuild -/
+def handOut (D : Disc) (tz : Bool) (w : World) : List HV :=
+  if tz then (D.resultCopy.runL w.work w.nextTmp).1 else w.work
+
+/-- `db[coll].aggregate(pipe)` on a collection with `codec_options.tz_aware = tz` -/
+def aggregateTz (D : Disc) (sem : Sem) (tz : Bool) (s : State) (coll : String) : R (List HV × State) :=
+  match runStages D sem (s.world D coll) (parsePipe s.pipe) with
+  | .ok w => .ok (handOut D tz w, w.state)
+  | .error e => .error e
 
 /-- `db[coll].aggregate(pipe)` where `pipe` is the caller's object held in the state: the stages
     are read off the object as it is NOW.  Result: the returned documents and the state after. -/
